@@ -394,3 +394,25 @@ class RecStream:
 
     def getvalue(self):
         return b"".join(self.writes)
+
+    # the rest of the binary-stream interface, as an ordinary file object has it (code under test may use any of it)
+    def writelines(self, lines):
+        for line in lines:
+            self.write(line)
+
+    def isatty(self):
+        return False
+
+    def writable(self):
+        return True
+
+    def readable(self):
+        return False
+
+    def seekable(self):
+        return False
+
+    closed = False
+
+    def close(self):
+        pass
